@@ -289,7 +289,7 @@ def lock(rng):
             pre.append(O('TRUE') + isa.IF(O('TRUE') + isa.IF(b'')))
     tail = []
     t = rng.choice(('eqv', 'verify', 'fail', 'call', 'readcache', 'plain',
-                    'two', 'eqv', 'owndef', 'owndef'))
+                    'two', 'eqv', 'owndef', 'owndef', 'owndef-eval'))
     if t == 'eqv':
         v = rbytes(rng, rng.choice((1, 2, 20)))
         info['wants'].append(v)
@@ -312,6 +312,28 @@ def lock(rng):
         info['handles'].append(h)
         info['own_body_len'] = len(body)
         tail.append(isa.DEF(h, body) + isa.CALL(h))
+    elif t == 'owndef-eval':
+        # the lock defines its own function, then EVALUATES an item the
+        # witness supplies, then calls its function: what the evaluated
+        # script defines under the same handle lives in the evaluation's own
+        # copy of the definitions and must not matter
+        h = rng.choice((0, 1, 2))
+        body, alt = rng.choice((
+            (O('FALSE') + O('VERIFY'), b''),
+            (O('FALSE') + O('VERIFY'), O('TRUE') + O('POP0')),
+            (O('TRUE') + O('VERIFY'), O('FALSE') + O('VERIFY')),
+            (O('DEPTH') + O('POP0'), O('FALSE') + O('VERIFY'))))
+        info['handles'].append(h)
+        info['wants'].append(isa.DEF(h, alt))
+        where = rng.choice(('top', 'top', 'function', 'loop'))
+        if where == 'top':
+            ev = O('EVAL')
+        elif where == 'function':
+            ev = isa.DEF(7, O('EVAL')) + isa.CALL(7)
+        else:
+            ev = O('TRUE') + isa.LOOP(O('POP0') + O('EVAL') + O('FALSE')) \
+                + O('POP0')
+        tail.append(isa.DEF(h, body) + ev + isa.CALL(h))
     elif t == 'readcache':
         k = rng.choice((b'k', b'q'))
         info['keys'].append(k)
